@@ -596,7 +596,18 @@ class Mesh2DTopology:
             return self._to_index_array(
                 self.edge_node_connectivity, self.edge_dimension)
 
-        return self.make_edge_node_array()
+        edge_node = self.make_edge_node_array()
+        if self.has_valid_face_edge_connectivity:
+            # The dataset already numbers its edges in face_edge_connectivity:
+            # edge `face_edge[face, column]` joins the `column`-th consecutive
+            # pair of nodes of `face`. Keep that numbering.
+            face_edge = self.face_edge_array
+            renumbered = numpy.ma.masked_all_like(edge_node)
+            for face_index, node_pairs in self._face_and_node_pair_iter():
+                for column, pair in enumerate(node_pairs):
+                    renumbered[face_edge[face_index, column]] = sorted(pair)
+            return renumbered
+        return edge_node
 
     @utils.timed_func
     def make_edge_node_array(self) -> numpy.ndarray:
@@ -1022,7 +1033,7 @@ class Mesh2DTopology:
             return self.dataset.sizes[self.edge_dimension]
 
         # By computing the edge_node array we can determine how many edges exist
-        return cast(int, self.edge_node_array.shape[0])
+        return cast(int, self.make_edge_node_array().shape[0])
 
     @property
     def face_count(self) -> int:
